@@ -1229,6 +1229,26 @@ class NF:
         return tuple(self.expand(x, env) if isinstance(x, tuple) else x for x in t)
 
     # ------------------------------------------------------------------ branching bodies
+    def _path_body(self, m, c):
+        """statements whose paths are enumerated: the source body, unless it calls private helpers / reads private constants the rule
+        tables do not know (added by a refactoring): then the canonical body, where those are seen through"""
+        raw = normalise_loops(real_body(m))
+        try:
+            from .canon import Canon, known_defs
+            known = known_defs()
+            names = {n.attr for n in ast.walk(m) if isinstance(n, ast.Attribute)} | {n.id for n in ast.walk(m) if isinstance(n, ast.Name)}
+            unknown = [x for x in names if x.startswith("_") and not x.startswith("__") and (
+                (x in c.module.functions and f"fn:{x}" not in known) or (x in c.module.assigns and f"const:{x}" not in known)
+                or (any(x in k.methods for k in c.mro) and not any(f"{k.name}.{x}" in known for k in c.mro)))]
+            if not unknown:
+                return raw
+            cn = getattr(self.prog, "_canon", None)
+            if cn is None:
+                cn = self.prog._canon = Canon(self.prog)
+            return cn.body(m, c.module, c, subst=False)
+        except Exception:
+            return raw
+
     def paths(self, cls: Class, name: str, self_t=None, args: dict | None = None, bound: int = 64):
         """Enumerate the acyclic if/match paths of a method.  Yields (guards, outcome, term, node) where guards is a
         list of (test term, taken) / (pattern text, taken), outcome is 'return' | 'raise' | 'fallthrough'."""
@@ -1240,7 +1260,7 @@ class NF:
         a = dict(args or {})
         for p_ in [x.arg for x in m.args.args[1:] + m.args.kwonlyargs]:
             a.setdefault(p_, sym(p_))
-        g = CFG(normalise_loops(real_body(m)))
+        g = CFG(self._path_body(m, c))
         out = []
         for path in g.paths(bound=bound):
             vars = dict(a)
